@@ -517,6 +517,14 @@ def slice_C02(ctx):
     for p in ["^.*\n", "^a\n", "^[ab]+\n", "^.*$\n?", "^a?\n", "(?:^b\n)+?", "^.\n|^..\n"]:
         for inp in gen.all_strings("a\n", 5) + ["l1\nl2\nl3", "a\nb\na\n", "ab\n\nab\n"]:
             tuples.append(("xpath", "m", p, inp, "", "lines"))
+    # one-character alternatives with a longer (or empty, or grouped) alternative between them: the order
+    # of the alternatives is their priority
+    for p in ["a|bc|b", "b|ab|a", "(?:a|bc|b)(c?)", "a|(bc)|b", "a||b", "a|b*c|b", "c|ab|a|b", "x(?:a|bc|b)", "(?:a|bc|b)+", "a|bc|b|c", "(a|bc|b)c?"]:
+        for inp in gen.all_strings("abc", 4) + ["xbcx", "xbccx", "abcabc"]:
+            tuples.append(("xpath", "", p, inp, "", "single-char-alternatives"))
+    for p in [",|;;|;", "x|(yz)|y", ";|,,|,"]:
+        for inp in ["a;;b,c;d", "yz", "xyzy", "a,,b;c,d", ";;", ",;;,", "y", ""]:
+            tuples.append(("xpath", "", p, inp, "", "single-char-alternatives"))
     # an exact count over a body that can match in more than one way: an earlier repetition has to be
     # revised when a later one (or what follows) fails
     for p in ["(?:a|ab){2}c", "(?:a+){2}b", "(?:ab?){2}b", "(?:a|ab){3}", "(?:ab|a){2}bc", "x(?:a|ab|abc){2}c", "(?:a*b?){2}c", "(?:a|ab){2}?c",
@@ -656,9 +664,12 @@ def slice_C03(ctx):
         tuples.append((d, fl, pat, inp, "", "random"))
     hand = ["(a|b)*b", "((a)|(b))+", "(a+)+b", "(a|ab)(c|bcd)(d*)", "(a*)*b", "(a)*ab", "(?:(a)|b)*", "(a|b)*?b", "(a)|b", "(a)?b", "(a*)b", "a(b?)c", "(a)(b)?(c)", "((a)(b))", "((a)|(b))c", "(a|(b))(c)", "()a", "(a|)b",
             "(a)(b)(c)(d)(e)(f)(g)(h)(i)(j)(k)", "((((a))))", "(a(b(c)))", "(a)b|a(c)", "(?:(a)|b)c", "(a)+", "(a|b)+c",
-            "(a+)(b+)", "(a*?)(b)", "x(a)?y"]
+            "(a+)(b+)", "(a*?)(b)", "x(a)?y",
+            # a sequence inside a loop (or an alternative) that matched once and is then exhausted on backtracking:
+            # its groups go back to what they were
+            "(?:(\\w)x?)*c", "(?:(a)x?|ab)c", "(?:([ab])x?)*c", "(?:(a)b?)*c", "(?:(a)x?)+b", "(?:(a)(b)?x?)*c", "(?:(a)x?|(b))+c", "(?:x?(a))*ab"]
     for p in hand:
-        for inp in gen.all_strings("abc", 3) + ["abcdefghijk", "xay", "xy", "aabb"]:
+        for inp in gen.all_strings("abc", 3) + ["abcdefghijk", "xay", "xy", "aabb", "abc", "aabc", "axbc", "abac", "aab"]:
             tuples.append(("xpath", "", p, inp, "", "hand"))
     for d, fl, pat, inp, _ in capalt_stream(ctx, ctx.n(1200, 12000)):
         tuples.append((d, fl, pat, inp, "", "capalt"))
@@ -1364,6 +1375,14 @@ def slice_C08(ctx):
                 for fl in ("i", "", "im"):
                     for inp in ("AB", "ab", "Ab", "aB", "xABy", "xaby", "AAB", "aab", "\u00c9\u00e9", "\u00e9\u00c9", "Bb", "bB"):
                         tuples.append(("xpath", fl, p, inp, "<$0>"))
+    # a repeated character that lies strictly inside a range of the class that follows (the two overlap in
+    # the middle of the range, not at its ends); a fixed-count repeat inside a counted group
+    for p in ["b*[a-c]", "5{2,}[0-9]", "[m-n]+[a-z]", "m*[l-n]$", "b+[a-c]c", "[b-c]*[a-d]x", "b*?[a-c]$", "^(?:a{2}){1,2}$", "^x(?:(?:ab){2})?$",
+              "(?:[ab]{2}){1,2}", "(?:a{3}){0,2}b", "^(?:(?:ab){2}){2,3}$", "(?:a{2}){1,}b"]:
+        for fl in ("", "i"):
+            for inp in ("bb", "bbxbb", "55", "555x", "mn", "mm", "MM", "bbc", "aaa", "aa", "aaaa", "xab", "xabab", "aba-", "aaab", "aaaaab", "abababab",
+                        "ababab", "aab", ""):
+                tuples.append(("xpath", fl, p, inp, "<$0>"))
     longs = ["abcabcabc", "a{5}b{5}", "(?:abc){3}", "[ab]{6}c"]
     for p in longs:
         for inp in ("", "abcabcab", "abcabcabc", "aaaaabbbbb", "ababab" + "c"):
